@@ -139,22 +139,40 @@ func init() {
 		Doc:   "every bufio.Writer created in a WriteTo method is flushed, with the Flush error checked, on every path that returns a possibly-nil error",
 		Run: func(c *Ctx, scope string, r *Report) {
 			for _, name := range []string{"(*Merger).WriteTo", "(*Segment).WriteTo"} {
-				fn := c.MustFn(name)
+				top := c.MustFn(name)
+				// the method itself and the in-package helpers it runs (a phase of the write path
+				// may have been split off together with its buffer)
 				var writers []*ssa.Call
-				for _, b := range fn.Blocks {
-					for _, ins := range b.Instrs {
-						if call, ok := ins.(*ssa.Call); ok {
-							if sc := call.Call.StaticCallee(); sc != nil && sc.Pkg != nil && sc.Pkg.Pkg.Path() == "bufio" && strings.HasPrefix(sc.Name(), "NewWriter") {
-								writers = append(writers, call)
+				seenFn := map[*ssa.Function]bool{}
+				var collect func(f *ssa.Function, depth int)
+				collect = func(f *ssa.Function, depth int) {
+					if seenFn[f] || depth > 2 || f.Blocks == nil {
+						return
+					}
+					seenFn[f] = true
+					for _, b := range f.Blocks {
+						for _, ins := range b.Instrs {
+							if call, ok := ins.(*ssa.Call); ok {
+								sc := call.Call.StaticCallee()
+								if sc == nil {
+									continue
+								}
+								if sc.Pkg != nil && sc.Pkg.Pkg.Path() == "bufio" && strings.HasPrefix(sc.Name(), "NewWriter") {
+									writers = append(writers, call)
+								} else if c.inRoot(sc) && fnName(sc) != "persistFooter" {
+									collect(sc, depth+1)
+								}
 							}
 						}
 					}
 				}
+				collect(top, 0)
 				if len(writers) == 0 {
-					r.undecided(name+"/bufio", name, c.pos(fn.Pos()), "no bufio.Writer is created in this method any more: the rule's model of the write path is out of date")
+					r.undecided(name+"/bufio", name, c.pos(top.Pos()), "no bufio.Writer is created in this method any more: the rule's model of the write path is out of date")
 					continue
 				}
 				for _, wcall := range writers {
+					fn := wcall.Parent()
 					key := name + "/Flush"
 					// find Flush calls on this writer
 					var flushes []*ssa.Call
